@@ -56,3 +56,49 @@ def rule_clones(chk, rid, select=None, floor=20):
         else:
             r.ok(stem, {'members': names})
     return r
+
+
+WIDTH_OF = {}
+for _w, _ms in (('b', ('paddb', 'psubb')), ('w', ('paddw', 'psubw')), ('d', ('paddd', 'psubd')), ('q', ('paddq', 'psubq'))):
+    for _m in _ms:
+        WIDTH_OF[_m] = _w
+        WIDTH_OF['v' + _m] = _w
+
+
+def rule_const_width(chk, rid, select=None, floor=50):
+    """contradiction rule: one vector constant of an object is added / subtracted with one element width everywhere (the counter
+    increment tables of the CTR / GCM / CCM kernels are dword constants: a qword add carries into the neighbouring IV word)"""
+    r = chk.rule(rid, 'within one function, the constants of one table (labels differing only in their trailing numbering) consumed by packed integer add/sub '
+                      'instructions are all consumed with the same element width (counter-increment tables: a wider add carries into the nonce)',
+                 floor=floor)
+    n = 0
+    for rel, name, res in asmfacts.all_functions():
+        if select and not select(rel, name):
+            continue
+        # one table = the constants whose labels differ only in their trailing numbering (ddq_add_1 .. ddq_add_8, ddq_add_16_16)
+        fam = {}
+        for a, mn, sym, off, fm in res.get('constuse', ()):
+            if mn in WIDTH_OF:
+                fam.setdefault(fm, []).append((fm, off, WIDTH_OF[mn], a))
+        for fm, cl in sorted(fam.items()):
+            cl.sort(key=lambda u: u[1])
+            if len(cl) < 3:
+                continue
+            ws = {}
+            for sym, off, w, a in cl:
+                ws.setdefault(w, []).append((a, off))
+            key = '%s:%s' % (name, fm)
+            n += 1
+            if len(ws) == 1:
+                r.ok(key, {'width': list(ws)[0], 'sites': len(cl)})
+                continue
+            major = max(ws, key=lambda k_: len(ws[k_]))
+            for w, sites in sorted(ws.items()):
+                if w == major:
+                    continue
+                for a, off in sites[:4]:
+                    r.bad('%s@%#x' % (key, a - res['entry']), res['lines'].get(a, rel),
+                          '%s: a constant of the table %s* is added with element width `%s` here, the other %d uses of the table in this '
+                          'function use `%s`' % (name, fm, w, len(ws[major]), major),
+                          facts={'widths': {k_: len(v_) for k_, v_ in ws.items()}})
+    return r
